@@ -343,6 +343,19 @@ fn gen_script(r: &mut Rng, idx: usize) -> Script {
                 _ => calls.push(Call { who: Who::T(a), op: Op::BatchDeleteIds(ids.clone(), String::new()), exact: true }),
             }
         }
+        // the attacker re-labels its OWN documents with server-owned keys through UpdateMetadata, in merge
+        // and in replace mode (a merge "keeps the stored keys anyway" only if the client's are stripped first)
+        let victim = (a + 1) % nt;
+        for (doc, merge) in [(5u64, true), (8u64, true), (5u64, false)] {
+            let m = match r.below(3) {
+                0 => vec![("__tenant_idx__".to_string(), victim.to_string()), ("__tenant_id__".to_string(), TENANTS[victim].to_string())],
+                1 => vec![("__namespace__".to_string(), "n1".to_string())],
+                _ => vec![("__tenant_idx__".to_string(), victim.to_string()), ("__namespace__".to_string(), "vault".to_string()), ("color".to_string(), "evil".to_string())],
+            };
+            calls.push(Call { who: Who::T(a), op: Op::Update(doc, m, merge, String::new()), exact: true });
+            calls.push(Call { who: Who::T(a), op: Op::BulkQuery(vec![1, 2, 3, 4, 5, 6, 7, 8, 4294967295], true, String::new()), exact: true });
+            calls.push(Call { who: Who::T(victim), op: Op::BulkQuery(vec![1, 2, 3, 4, 5, 6, 7, 8, 4294967295], true, String::new()), exact: true });
+        }
     }
     let len = len + calls.len().min(6);
     let restart_at = if restart_script { Some(calls.len() + (len - calls.len()) * 3 / 5) } else { None };
